@@ -45,6 +45,9 @@ package shrex_getter
 //@ func (*Getter).GetEDS$2
 //@   property C06
 //@   noframe
+// ($RespRead speaks about the attempt this closure makes: it starts false)
+//@   requires !$RespRead
+//@   havoc $RespRead $BufClean
 //@   callpre Client).Get: $BufClean
 
 // Row, square, namespace-data and range requests return the zero value when the request loop fails:
